@@ -811,6 +811,7 @@ func checkC16(e *Engine, r *Report) {
 				return false, false
 			}
 		}
+		checkMemSplit(e, r, getMem)
 		if allMems != nil && forCpus != nil && special != nil {
 			p1 := FindPath(PathQuery{Fn: getMem, Assume: isRoot(true), Target: func(x ssa.Instruction) bool { return e.IsCallTo(x, fset(forCpus, special)) }})
 			p2 := FindPath(PathQuery{Fn: getMem, Assume: isRoot(false), Target: func(x ssa.Instruction) bool { return e.IsCallTo(x, fset(allMems)) }})
@@ -1223,4 +1224,145 @@ func checkConstraintsFreshness(e *Engine, r *Report) {
 		}
 	})
 	r.MinInstances("policy-set reads combined in checkConstraints", n, 3)
+}
+
+// checkMemSplit: splitMemsByType sorts every id into the result set of its own memory type (and no other), and
+// getMemSupply adds each class of CPU-less special memory into the pool's set of the same class.
+func checkMemSplit(e *Engine, r *Report, getMem *ssa.Function) {
+	rule := "R2 memory attachment"
+	split := r.Anchor(pkgTA, "policy.splitMemsByType")
+	special := e.Fn(pkgTA, "policy.getClosestSpecialMem")
+	if split == nil {
+		return
+	}
+	typeIdx := map[string]int{"MemoryTypeDRAM": 0, "MemoryTypePMEM": 1, "MemoryTypeHBM": 2} // (dram, pmem, hbm) result order
+	consts := map[int]*types.Const{}
+	for n, i := range typeIdx {
+		if k, ok := e.TypesPkg(pkgSysfs).Scope().Lookup(n).(*types.Const); ok {
+			consts[i] = k
+		} else {
+			r.Undecided("R2:split-by-own-type#"+n, rule, "constant "+n+" exists", "-", nil, "not found")
+		}
+	}
+	// same set: the receiver of an Add and the i-th returned value denote the same set object
+	sameSet := func(a, b ssa.Value) bool {
+		if sameObject(a, b) {
+			return true
+		}
+		ua, ok1 := a.(*ssa.UnOp)
+		ub, ok2 := b.(*ssa.UnOp)
+		return ok1 && ok2 && ua.Op == token.MUL && ub.Op == token.MUL && ua.X == ub.X
+	}
+	addTo := func(fn *ssa.Function, in ssa.Instruction, idx int, arg func(ssa.Value) bool) bool {
+		ci, ok := in.(ssa.CallInstruction)
+		if !ok || callObj(ci.Common()) == nil || callObj(ci.Common()).Name() != "Add" {
+			return false
+		}
+		a := callArgs(ci)
+		if len(a) != 2 {
+			return false
+		}
+		isRes := false
+		for _, ret := range Returns(fn) {
+			if idx < len(ret.Results) {
+				Origins(ret.Results[idx], func(v ssa.Value) bool {
+					if sameSet(a[0], v) {
+						isRes = true
+					}
+					return isRes
+				})
+			}
+		}
+		if !isRes {
+			return false
+		}
+		if arg(a[1]) {
+			return true
+		}
+		for _, el := range sliceLiteralElems(a[1]) {
+			if arg(el) {
+				return true
+			}
+		}
+		return false
+	}
+	// the loop over the ids
+	loops := sliceLoops(split)
+	var memTypeCalls []ssa.Value
+	AllInstrs(split, func(in ssa.Instruction) {
+		if c, ok := in.(*ssa.Call); ok && callObj(c.Common()) != nil && callObj(c.Common()).Name() == "GetMemoryType" {
+			memTypeCalls = append(memTypeCalls, c)
+		}
+	})
+	r.MinInstances("id loop / GetMemoryType in splitMemsByType", min(len(loops), len(memTypeCalls)), 1)
+	for _, loop := range loops {
+		loop := loop
+		isID := loop.elem
+		for i := 0; i < 3; i++ {
+			k := consts[i]
+			if k == nil {
+				continue
+			}
+			i := i
+			ofType := func(cond ssa.Value) (bool, bool) {
+				b, ok := cond.(*ssa.BinOp)
+				if !ok || (b.Op != token.EQL && b.Op != token.NEQ) {
+					return false, false
+				}
+				c, isK := b.Y.(*ssa.Const)
+				if !isK || c.Value == nil || !types.Identical(c.Type(), k.Type()) {
+					return false, false
+				}
+				isMT := false
+				for _, mc := range memTypeCalls {
+					if unspill(b.X) == mc {
+						isMT = true
+					}
+				}
+				if !isMT {
+					return false, false
+				}
+				return true, isConstEq(b.Y, k) == (b.Op == token.EQL)
+			}
+			p := loop.skips(ofType, func(in ssa.Instruction) bool { return addTo(split, in, i, isID) }, true)
+			r.Check("R2:split-by-own-type#"+k.Name(), rule, "splitMemsByType puts every node of type "+k.Name()+" into the result set of that type", e.InstrPos(loop.start), split, p == nil, e.pathString(p), true)
+			p = FindPath(PathQuery{Fn: split, From: loop.start, Assume: ofType,
+				Block: func(in ssa.Instruction) bool { return in == loop.head.Instrs[0] }, Target: func(in ssa.Instruction) bool {
+					for j := 0; j < 3; j++ {
+						if j != i && addTo(split, in, j, isID) {
+							return true
+						}
+					}
+					return false
+				}})
+			r.Check("R2:split-by-own-type#"+k.Name()+"-only", rule, "splitMemsByType puts a node of type "+k.Name()+" into no other result set", e.InstrPos(loop.start), split, p == nil, e.pathString(p), true)
+		}
+	}
+	// getMemSupply: the special memory found for a non-root pool is added class by class
+	if getMem != nil && special != nil {
+		var splitOfSpecial ssa.Value
+		for _, c := range e.callsTo(getMem, split) {
+			a := callArgs(c)
+			if call, ok := a[1].(*ssa.Call); ok && e.IsCallTo(call, fset(special)) {
+				splitOfSpecial = c.Value()
+			}
+		}
+		if splitOfSpecial == nil {
+			r.Check("R2:special-mem-added", rule, "getMemSupply splits the special memory it found by type", e.Pos(getMem.Pos()), getMem, false, "no splitMemsByType(getClosestSpecialMem(…))", true)
+		} else {
+			for i, n := range []string{"DRAM", "PMEM", "HBM"} {
+				i := i
+				fromSplit := func(v ssa.Value) bool { // X.Members() of the i-th part
+					call, ok := v.(*ssa.Call)
+					if !ok || callObj(call.Common()) == nil || callObj(call.Common()).Name() != "Members" {
+						return false
+					}
+					ex, ok := unspill(callArgs(call)[0]).(*ssa.Extract)
+					return ok && ex.Tuple == splitOfSpecial && ex.Index == i
+				}
+				p := FindPath(PathQuery{Fn: getMem, From: splitOfSpecial.(ssa.Instruction), Target: isRet, Block: func(in ssa.Instruction) bool { return addTo(getMem, in, i, fromSplit) }})
+				r.Check("R2:special-mem-added#"+n, rule, "the CPU-less "+n+" memory found for a pool is added to the pool's "+n+" nodes", e.Pos(getMem.Pos()), getMem, p == nil, e.pathString(p), true)
+			}
+		}
+	}
 }
